@@ -34,6 +34,12 @@ type ccCase struct {
 
 type reqTag struct{ id int }
 
+type ccSvc struct{ name string }
+
+func (s *ccSvc) Name() string { return s.name }
+
+type ccNamer interface{ Name() string }
+
 type ccOut struct {
 	H   string `json:"h"`
 	Val string `json:"val"`
@@ -70,10 +76,17 @@ func ccFlame(g *ccGates) *flamego.Flame {
 	// which is what makes an append to it by one request visible to another
 	f.Use(func(c flamego.Context) {})
 	f.Use(func(w http.ResponseWriter) {})
+	f.Use(func(r *http.Request) {}) // five Use calls: len 5, cap 8
+	// a service mapped on the Flame by its concrete type only; handlers ask for it through an interface, so the first
+	// requests of a round resolve it concurrently in the shared application injector
+	f.Map(&ccSvc{name: "svc"})
 	h := func(kind string) flamego.Handler {
-		return func(c flamego.Context, t *reqTag) {
+		return func(c flamego.Context, t *reqTag, sv ccNamer) {
 			id := idOf(c.Request().Request)
 			g.gate(id)
+			if sv.Name() != "svc" {
+				kind = "?svc"
+			}
 			out := ccOut{H: kind, Val: c.Param("v"), Tag: t.id, URL: c.URLPath("named", "v", c.Request().Header.Get("X-Val")), Wid: id}
 			b, _ := json.Marshal(out)
 			c.ResponseWriter().Header().Set("X-Wid", strconv.Itoa(id))
